@@ -187,6 +187,19 @@ impl LabWorker {
         }
     }
 
+    /// value of one of the worker's counters (QueryMetrics over the command channel), None when it was never bumped
+    pub fn counter(&mut self, name: &str) -> Option<i64> {
+        use sozu_command_lib::proto::command::{filtered_metrics::Inner, response_content::ContentType, QueryMetricsOptions};
+        let opts = QueryMetricsOptions { list: false, cluster_ids: vec![], backend_ids: vec![], metric_names: vec![name.to_string()], no_clusters: true, workers: false };
+        let r = self.request(RequestType::QueryMetrics(opts)).ok()?;
+        let Some(ContentType::WorkerMetrics(wm)) = r.content.and_then(|c| c.content_type) else { return None };
+        match wm.proxy.get(name).and_then(|m| m.inner.clone()) {
+            Some(Inner::Count(v)) => Some(v),
+            Some(Inner::Gauge(v)) => Some(v as i64),
+            _ => None,
+        }
+    }
+
     pub fn alive(&self) -> bool {
         self.thread.as_ref().map(|t| !t.is_finished()).unwrap_or(false)
     }
